@@ -158,7 +158,7 @@ class Judge:
         if got != want:
             self.bad('content_string', block, name,
                      f'stored {got[:60]!r} (len {len(got)}), supplied {want[:60]!r} (len {len(want)})',
-                     mechanism='string')
+                     mechanism=_string_mechanism(node, want))
 
     def num(self, block, st, name, want_ld, shape=None, tol=TOL64, mech='value', **keys):
         """Numeric field == want (long double, row-major) with numpy shape ``shape``."""
@@ -198,6 +198,16 @@ class Judge:
         if node.tag != 'logical' or list(node.value) != list(want):
             self.bad('content_value', block, name, f'stored {node.tag} {node.value}, expected {list(want)}',
                      mechanism='logical')
+
+
+def _string_mechanism(node, want):
+    """A stored string that is the supplied UTF-8 cut after len(characters) bytes (the rest of
+    the block happened to decode): the length field counted characters."""
+    raw = node.value[0] if node.value else b''
+    enc = want.encode('utf-8')
+    if len(enc) > len(want) and len(raw) == len(want) and enc.startswith(raw):
+        return 'string_length_in_characters'
+    return 'string'
 
 
 def _struct_of(j, block, node):
@@ -457,7 +467,7 @@ def _labels(j, blk, st, want):
             return
         if got != w:
             j.bad('content_string', blk, 'label', f'label {i} stored {got[:40]!r}, supplied {w[:40]!r}',
-                  mechanism='string')
+                  mechanism=_string_mechanism(n, w))
             return
 
 
@@ -982,7 +992,8 @@ FINDING_PREDICATES = {
     'sqw.writer.pix_chunk_loop_bound': lambda v: v['kind'] in ('pixels_missing', 'reader_raised')
     and _k(v).get('mechanism') == 'pix_chunk_loop_bound',
     # writer: char-array length counted in characters -> block content undecodable / unreadable
-    'sqw.writer.string_length_in_characters': lambda v: v['kind'] in ('block_undecodable', 'reader_raised')
+    'sqw.writer.string_length_in_characters': lambda v: v['kind'] in ('block_undecodable', 'reader_raised',
+                                                                     'content_string')
     and _k(v).get('mechanism') == 'string_length_in_characters',
     # reader: alatt (written in angstrom) labelled 1/angstrom in IX_sample and line_proj
     'sqw.reader.alatt_unit_dimension': lambda v: v['kind'] == 'reader_unit_dimension'
